@@ -34,6 +34,11 @@ def parseStep (j : Json) : Except String Step := do
       let q ← kv.getArr?
       return (← q[0]!.getStr?, ← parseVal q[1]!)
     return .update (← getNat j "o") kvs
+  | "discard" =>
+    let kvs ← (← getArr j "kvs").toList.mapM fun kv => do
+      let q ← kv.getArr?
+      return (← q[0]!.getStr?, ← parseVal q[1]!)
+    return .discard (← getNat j "o") kvs
   | o => throw s!"unknown step {o}"
 
 def jVal : Val → Json
@@ -108,6 +113,7 @@ def handle (req : Json) : Except String Json := do
     (if impl == model then ["json:model-equals-impl"] else ["json:model-differs"]) ++
     (if mSteps.any (fun s => s.2.raised) then ["step:method-raised"] else []) ++
     (if steps.any (fun | .update _ _ => true | _ => false) then ["step:update"] else []) ++
+    (if steps.any (fun | .discard _ _ => true | _ => false) then ["step:discard"] else []) ++
     (if mSteps.any (fun s => !s.2.calls.isEmpty) then ["fired"] else [])
   return Json.mkObj [("model", model), ("applicable", Json.bool wf),
     ("spec_impl", optJ sImpl), ("spec_model", optJ sModel), ("checked_steps", toJson nImpl),
